@@ -193,6 +193,29 @@ def bowl_model(level=1, sigma=1.0, inside_sphere=False):
         m["domains"].append(("Air", [(+1, "Bowl")])); m["cond"]["Air"] = 0.0
     return m
 
+def separate_conductors(rng, k=2, level=0):
+    """k disjoint conductors (spheres, each with 1 or 2 layers) in the same air: the outermost domain is bounded by
+    k interfaces.  Returns the model; info["objects"] = [(centre, inner radius)] for probes inside every object"""
+    import models
+    vi, ti = models.icosphere(level)
+    centres = [(-1.6, 0.0, 0.0), (1.6, 0.3, 0.0), (0.0, 2.9, 0.4)][:k]
+    meshes = []; interfaces = []; domains = []; cond = {}; air = []; objs = []
+    for j, c in enumerate(centres):
+        nl = rng.randint(1, 2); radii = [1.0] if nl == 1 else [0.6, 1.0]
+        prev = None
+        for q, r in enumerate(radii):
+            mn = "o%dm%d" % (j, q); inn = "O%dS%d" % (j, q)
+            meshes.append((mn, models.transform(vi, r, c), list(ti))); interfaces.append((inn, [(+1, mn)]))
+            dn = "O%dL%d" % (j, q)
+            domains.append((dn, [(-1, inn)] + ([(+1, prev)] if prev else []))); cond[dn] = rng.choice([1.0, 0.33, 0.0125])
+            prev = inn
+        air.append((+1, prev)); objs.append((c, radii[0]))
+    rng.shuffle(air)
+    pos = rng.randrange(len(domains) + 1)
+    domains.insert(pos, ("Air", air)); cond["Air"] = 0.0
+    return dict(meshes=meshes, interfaces=interfaces, domains=domains, cond=cond,
+                info=dict(kind="separate", topology="separate", objects=objs, centre=(0, 0, 0), outer_radius=4.0))
+
 # ------------------------------------------------------------------ probes
 def probe_points(m, rng, n, margin=0.04):
     """random points of the bounding box (slightly enlarged) farther than `margin` (relative to the box size)
